@@ -15,12 +15,10 @@ NO_PARSER = ('needs the native EdgeQL parser (Rust/pyo3 + `parsing` tables) and 
 NOT_APPLICABLE = {
     'C01': 'print/re-parse round trip: ' + NO_PARSER + '; the token-level half (literals, identifiers, parameters) is decided under C18',
     #'C02-old': 'computed migrations: ' + NO_PARSER,
-    'C03': 'DESCRIBE output rebuilds the schema: ' + NO_PARSER,
     'C07': 'access policies on every read path: needs EdgeQL->IR->SQL compilation; ' + NO_PARSER,
     #'C10-old': 'step-by-step vs direct migration: ' + NO_PARSER,
     #'C11-old': 'SDL order independence: sdl_to_ddl needs parsed SDL and std name resolution (' + NO_PARSER + '); its ordering kernel is decided under C20',
     'C12': 'inferred types vs evaluated values: needs compilation and the toy evaluator, both need the parser; ' + NO_PARSER,
-    'C13': 'generated SQL scoping/determinism: needs compiled queries; ' + NO_PARSER,
 }
 
 # property -> (category, technique, text, level_note, design_ref)
@@ -123,6 +121,26 @@ check('C20', 'other',
       'N = 2..3 and adds determinism, sort() and normalize().',
       'Trusted: reachability formulas; vlib.pysym is validated against CPython on every run and fails closed on unsupported syntax. '
       'Iteration order of keys: ascending only. N >= 5 outside.', 'DESIGN.md section 4, C20', engine='E2 PySym merged encoding + E1 CrossHair')
+
+check('C03', 'model_checking',
+      'bounded model checking of schema description: symbolically chosen schemas (CrossHair + z3), the statements behind '
+      'ddl_text_from_schema / sdl_text_from_schema replayed on an empty database under several session module settings',
+      'Statement level only: for every schema inside the bound (6 recipes + <= 2 DDL commands) the statement nodes that DESCRIBE '
+      'renders as DDL and as SDL are accepted by an std-only database and rebuild a structurally equal, referentially intact schema, '
+      'whatever the session default module / extra aliases. That the rendered text parses back to these nodes (C01) cannot be '
+      'decided here - no parser.',
+      'Trusted: structural-equality oracle; std stand-in. Excluded: aliases that shadow a module name used in the text; object classes '
+      'that need expressions.', 'DESIGN.md section 4, C03')
+
+check('C13', 'other',
+      'bounded symbolic execution over a compositional family of hand-built queries (CrossHair + z3 choose the composition), each compiled '
+      'by the real EdgeQL->IR->SQL compilers; the SQL tree is resolved under PostgreSQL scoping rules',
+      'For every accepted query of the family (atoms x wrappers x binary / DML / nesting forms over a Person/Admin/Post schema; ~30 000 '
+      'queries in the quick tier): all column references resolve (LATERAL / CTE / sub-query visibility, output columns of sub-selects), '
+      'parameters are consistent with the argument map, and recompilation - also under a different hash seed - gives byte-identical SQL, '
+      'argument map and descriptors. Queries are qlast trees, not text (no parser); the standard library is a transcribed fragment.',
+      'Trusted: the name-resolution model in vlib/sqlscope.py. One defect repaired (hash-order dependent join conditions), known '
+      'finding F19 (descriptor of `DML ?? DML`).', 'DESIGN.md section 4, C13')
 
 check('C05', 'model_checking',
       'bounded model checking of DDL histories through the real backend delta (pgsql.delta adapt / apply / generate): commands are '
